@@ -1361,6 +1361,7 @@ pub struct HistoryIterator<'a> {
 	first_visible_seen: bool,
 	latest_is_hard_delete: bool,
 	barrier_seen: bool, // True once we hit HARD_DELETE or REPLACE
+	last_seen_seq: Option<u64>, // seq_num of the previous visible version of the current key
 
 	// === Backward iteration state (buffered) ===
 	backward_buffer: Vec<BufferedEntry>,
@@ -1402,6 +1403,7 @@ impl<'a> HistoryIterator<'a> {
 			first_visible_seen: false,
 			latest_is_hard_delete: false,
 			barrier_seen: false,
+			last_seen_seq: None,
 			backward_buffer: Vec::new(),
 			backward_buffer_index: None,
 			ts_range,
@@ -1436,6 +1438,7 @@ impl<'a> HistoryIterator<'a> {
 		self.first_visible_seen = false;
 		self.latest_is_hard_delete = false;
 		self.barrier_seen = false;
+		self.last_seen_seq = None;
 	}
 
 	fn clear_backward_buffer(&mut self) {
@@ -1548,6 +1551,7 @@ impl<'a> HistoryIterator<'a> {
 				self.first_visible_seen = false;
 				self.latest_is_hard_delete = false;
 				self.barrier_seen = false;
+				self.last_seen_seq = None;
 			}
 
 			// Skip invisible versions
@@ -1555,6 +1559,15 @@ impl<'a> HistoryIterator<'a> {
 				self.inner_next()?;
 				continue;
 			}
+
+			// One version can be met twice: after a crash between the version-index
+			// update and the manifest switch the commit log brings back into a memtable
+			// what the index already holds. List it once.
+			if self.last_seen_seq == Some(seq_num) {
+				self.inner_next()?;
+				continue;
+			}
+			self.last_seen_seq = Some(seq_num);
 
 			// First visible entry → check for HARD_DELETE as latest
 			if !self.first_visible_seen {
@@ -1662,6 +1675,7 @@ impl<'a> HistoryIterator<'a> {
 		// Collect all visible versions
 		// Backward storage order: (user_key DESC, seq_num ASC) → oldest first
 		struct VersionInfo {
+			seq_num: u64,
 			in_ts_range: bool,
 			is_hard_delete: bool,
 			is_replace: bool,
@@ -1690,8 +1704,10 @@ impl<'a> HistoryIterator<'a> {
 
 			// every visible version takes part in the barrier rule; the timestamp range
 			// only filters what is shown
-			if visible {
+			// (a physical duplicate - same sequence number - counts once)
+			if visible && versions.last().map(|v: &VersionInfo| v.seq_num) != Some(seq_num) {
 				versions.push(VersionInfo {
+					seq_num,
 					in_ts_range,
 					is_hard_delete: key_ref.is_hard_delete_marker(),
 					is_replace: key_ref.is_replace(),
@@ -1847,6 +1863,7 @@ impl<'a> HistoryIterator<'a> {
 		self.first_visible_seen = true;
 		self.latest_is_hard_delete = false;
 		self.barrier_seen = current.is_replace();
+		self.last_seen_seq = Some(current.seq_num());
 
 		// Move past current entry to get the NEXT entry in forward direction
 		self.inner_next()?;
